@@ -364,6 +364,13 @@ def gen_bases(rng, nnat, nasm):
         ("asm-fixedkeys", A([("SHORT_BINUNICODE", "r"), ("BINPUT", 3), "STOP"])),
         ("asm-fixedkeys", A([("SHORT_BINUNICODE", "r"), ("BINPUT", 0), ("BINPUT", 2), "STOP"])),
     ]
+    # more than one PROTO, and a PROTO that is not in the leading header: the injection point is right after the
+    # LEADING run of PROTO / FRAME opcodes, not after "as many opcodes as there are PROTOs and FRAMEs" (seeded
+    # C08 r7; multi-FRAME bases -- protocol-4 output above 64 KiB -- would exercise the same slip but make the
+    # quick tier take many minutes, so they are left to the repeated-PROTO programs)
+    bases.append(("asm-twoproto", A([("PROTO", 2), ("PROTO", 2), "EMPTY_LIST", ("BININT1", 1), "APPEND", "STOP"])))
+    bases.append(("asm-twoproto", A([("PROTO", 2), "EMPTY_LIST", ("PROTO", 2), ("BININT1", 1), "APPEND", ("PROTO", 2),
+                                     "STOP"])))
     for _ in range(nasm):
         bases.append(("asm", asm_base(rng)))
     # unframed twins of framed pickles
